@@ -601,6 +601,11 @@ PARTIALS = {
     "multi": "line one\r\n  {% if pm.x %}\n\t{{ pm.y | append: pz | upcase }}\n{% endif %}\n{% liquid\n  assign inner = pq\n  echo inner | size\n%}",
     "base": "<head>{{ title }}</head>\n{% block content %}\n  {{ bv | escape }}\n{% endblock %}\n{% block foot %}f{% endblock %}",
     "nest": "{% include 'part' %}\n  {% render 'multi', pm: n1.n2 %}",
+    # dotted names (the variable bound by `with` / `for` without an alias is the name less its extension) next to an
+    # unrelated template whose name is that prefix and whose layout is different
+    "card.liquid": "<h2>{{ card.title | upcase }}</h2>\n{% assign price = card.price | times: rate %}\n{% if price %}\n  {{ price | money }} {{ currency }}\n{% endif %}\n",
+    "row.liquid": "<li>{{ row.name | escape }} {% if sep %}{{ sep }}{% endif %}</li>\n",
+    "card": "<!-- legacy card, not used -->\n\n{{ legacy_card }}\n{% assign price = 0 %}",
 }
 
 
@@ -644,6 +649,7 @@ GOOD = [
     "{% render 'part' for many.items as pv %}{% include 'part' for others %}{{ tname.v }}",
     "{% assign key = kk %}{{ item[key] }} {{ prices[idx] | plus: row[col] }}\n{% for r in rows %}{{ r[col] }}{% endfor %}{% liquid echo item[key]\n echo row[col][key] %}",
     "{% doc -%}\n usage: {% if product %}{% form 'p' %}{% else %}\n{% enddoc %}{{ after.doc }}{%- doc %}{{ inner }}{% enddoc -%}\n{% assign dz = tail.v %}{{ dz }}",
+    "{% assign rate = 2 %}\n{% render 'card.liquid' with product %}\n{% render 'row.liquid' for rows %}{% include 'card.liquid' with other %}\n{% include 'row.liquid' for more %}{{ footer | strip }}",
     "x {{ 'str' | append: v1 | replace: 'a', v2.w }} y {{ 1 | plus: n1.n | minus: 2.5 }} z {{ true }}{{ nil }}{{ (1..3) | join }}",
 ]
 NGOOD = len(GOOD)
@@ -723,7 +729,7 @@ def analyze_ok(k, partials, use_async):
 
 def c20_spans_analyze(k: int, partials: bool) -> bool:
     """
-    pre: 0 <= k < 30
+    pre: 0 <= k < 31
     post: _
     """
     if excluded("c20_spans_analyze", locals()):
@@ -733,7 +739,7 @@ def c20_spans_analyze(k: int, partials: bool) -> bool:
 
 def c20_spans_analyze_async(k: int, partials: bool) -> bool:
     """
-    pre: 0 <= k < 30
+    pre: 0 <= k < 31
     post: _
     """
     if excluded("c20_spans_analyze_async", locals()):
@@ -783,7 +789,7 @@ def tags_problems(k):
 
 def c20_spans_tag_analysis(k: int) -> bool:
     """
-    pre: 0 <= k < 42
+    pre: 0 <= k < 46
     post: _
     """
     if excluded("c20_spans_tag_analysis", locals()):
@@ -808,7 +814,7 @@ def tags_loader_ok(name):
 
 def c20_spans_tag_analysis_loader(k: int) -> bool:
     """
-    pre: 0 <= k < 4
+    pre: 0 <= k < 7
     post: _
     """
     # Environment.analyze_tags(name): spans carry the loader's template name
@@ -1101,7 +1107,7 @@ def selftest():
     for i, t in enumerate(TEMPLATES):
         if t is None:
             fails.append("GOOD[%d] does not parse: %r" % (i, GOOD[i]))
-    if (len(EXPRS), len(BAD_EXPRS), len(LIQS), len(BAD_LIQS), len(GOOD), len(TAG_SRCS), len(EOF_FAMILY), len(PARTIALS)) != (24, 8, 13, 3, 30, 42, 11, 4):
+    if (len(EXPRS), len(BAD_EXPRS), len(LIQS), len(BAD_LIQS), len(GOOD), len(TAG_SRCS), len(EOF_FAMILY), len(PARTIALS)) != (24, 8, 13, 3, 31, 46, 11, 7):
         fails.append("pool sizes drifted from the preconditions: %r" % ((len(EXPRS), len(BAD_EXPRS), len(LIQS), len(BAD_LIQS), len(GOOD), len(TAG_SRCS), len(EOF_FAMILY), len(PARTIALS)),))
     if max(len(v) for v in MALFORMED.values()) > 64:
         fails.append("malformed category larger than 64")
